@@ -11,6 +11,8 @@ V = os.path.dirname(os.path.dirname(os.path.abspath(__file__)))
 name, wt, demo = sys.argv[1], sys.argv[2], sys.argv[3]
 props = sys.argv[4:]
 demo = demo.replace("{wt}", wt)
+# "<cmd with>|||<cmd without>" for demonstrations that select the variant by an argument
+demo_with, demo_without = (demo.split("|||") + [demo])[:2] if "|||" in demo else (demo, demo)
 check = os.environ.get("VERIF_CHECK", os.path.join(V, "check"))
 
 
@@ -31,7 +33,7 @@ rc, out = sh("%s baseline" % check, env={"WENCRY_REPO": wt})
 meta["stable_tests_with_change"] = out.strip().split("\n")[-1] if rc == 0 else "FAILED: " + out[-500:]
 meta["ran"].append("WENCRY_REPO=%s ./check baseline   (cmake build with the guard off + the 36 stable tests) -> exit %d" % (wt, rc))
 print("stable tests with change:", rc, meta["stable_tests_with_change"], flush=True)
-rc1, out1 = sh(demo, timeout=1800)
+rc1, out1 = sh(demo_with, timeout=1800)
 meta["demo_with_change_exit"] = rc1
 meta["demo_with_change_tail"] = out1.strip().split("\n")[-3:]
 print("demo with change: exit", rc1, out1.strip().split("\n")[-1][:200], flush=True)
@@ -44,7 +46,7 @@ for p in props:
     meta["ran"].append("WENCRY_REPO=%s ./check %s --tier quick -> exit %d" % (wt, p, rc))
     print("check", p, "exit", rc, results[p]["what"][:150], flush=True)
 sh("git -C %s checkout -q -- ." % wt)
-rc2, out2 = sh(demo, timeout=1800)
+rc2, out2 = sh(demo_without, timeout=1800)
 meta["demo_without_change_exit"] = rc2
 meta["demo_without_change_tail"] = out2.strip().split("\n")[-3:]
 print("demo without change: exit", rc2, out2.strip().split("\n")[-1][:200], flush=True)
